@@ -34,6 +34,11 @@ func stuffBits(bits *utils.BitList, wordSize int) *utils.BitList {
 	out := new(utils.BitList)
 	n := bits.Len()
 	mask := (1 << uint(wordSize)) - 2
+	if n == 0 {
+		// a symbol holds at least one data word: an empty message is one word of padding
+		out.AddBits(mask, byte(wordSize))
+		return out
+	}
 	for i := 0; i < n; i += wordSize {
 		word := 0
 		for j := 0; j < wordSize; j++ {
